@@ -97,6 +97,7 @@ type Spec struct {
 	Caller   bool         `json:"caller"`
 	Salt     uint64       `json:"salt"`
 	BigEvery int          `json:"big_every"`
+	StopMid  int          `json:"stop_buffered_sinks_after_us,omitempty"` // > 0: BufferedWriteSyncer.Stop is called while goroutines still log
 }
 
 func genSpec(seed int64, i int) Spec {
@@ -110,7 +111,7 @@ func genSpec(seed int64, i int) Spec {
 	}
 	nb := rng.Pick(g, []int{1, 1, 2, 2, 3})
 	for b := 0; b < nb; b++ {
-		bs := BranchSpec{Enc: rng.Pick(g, []string{"json", "json", "console"}), Sink: rng.Pick(g, []string{"lock", "buffered", "buffered", "file", "combine"})}
+		bs := BranchSpec{Enc: rng.Pick(g, []string{"json", "json", "console"}), Sink: rng.Pick(g, []string{"lock", "buffered", "buffered", "file", "combine", "shared-pair"})}
 		if bs.Sink == "buffered" {
 			bs.BufSize = rng.Pick(g, []int{64, 300, 1024, 4096, 65536})
 		}
@@ -118,6 +119,9 @@ func genSpec(seed int64, i int) Spec {
 			bs.Warn = true
 		}
 		s.Branches = append(s.Branches, bs)
+	}
+	if g.P(1, 3) {
+		s.StopMid = g.Range(50, 3000)
 	}
 	if nb > 1 && g.P(1, 3) { // a failing branch in front: the others must still receive everything
 		s.Branches = append([]BranchSpec{{Enc: "json", Sink: "failing"}}, s.Branches...)
@@ -158,7 +162,7 @@ func build(s Spec, reference bool) (*env, error) {
 		var ws zapcore.WriteSyncer
 		var readers []func() []byte
 		kind := b.Sink
-		if reference {
+		if reference && kind != "shared-pair" {
 			kind = "lock"
 		}
 		switch kind {
@@ -192,6 +196,16 @@ func build(s Spec, reference bool) (*env, error) {
 		lvl := zapcore.InfoLevel
 		if b.Warn {
 			lvl = zapcore.WarnLevel
+		}
+		if b.Sink == "shared-pair" {
+			// one locked sink used by a core on its own AND, through CombineWriteSyncers, by a second
+			// core: every line of both cores must still arrive intact at the shared sink (twice per
+			// entry), which needs one and the same lock on both paths
+			sharedSink, other := &recSink{}, &recSink{}
+			shared := zapcore.Lock(sharedSink)
+			cores = append(cores, zapcore.NewCore(encoder(b.Enc), shared, lvl), zapcore.NewCore(encoder(b.Enc), zap.CombineWriteSyncers(shared, other), lvl))
+			e.streams = append(e.streams, []func() []byte{func() []byte { return sharedSink.buf }, func() []byte { return other.buf }})
+			continue
 		}
 		cores = append(cores, zapcore.NewCore(encoder(b.Enc), ws, lvl))
 		e.streams = append(e.streams, readers)
@@ -410,30 +424,43 @@ func runOne(r *ev.Run, i int) bool {
 		}
 	}
 	_ = ref.logger.Sync()
-	expected := make([]map[[2]int][]byte, len(s.Branches))
+	type streamExp struct {
+		line  map[[2]int][]byte
+		count map[[2]int]int
+	}
+	expected := make([][]streamExp, len(s.Branches))
 	for b := range s.Branches {
-		expected[b] = map[[2]int][]byte{}
-		refStream := ref.streams[b][0]()
-		if k := bytes.IndexByte(refStream, 0xDB); k >= 0 {
-			lo := k - 80
-			if lo < 0 {
-				lo = 0
-			}
-			fail("poison", fmt.Sprintf("branch %d: freed-buffer poison (0xDB) reached the sink even with a single goroutine: a pooled buffer was read after it was returned to the pool: %q", b, clip(refStream[lo:])), nil)
-			return true
-		}
-		ids, lines, bad := parseStream(refStream)
-		if bad != "" {
-			// one goroutine is the smallest instance of "any number of goroutines"
-			fail("sequential-corrupt", fmt.Sprintf("branch %d: with a single goroutine the sink stream is already not one intact line per entry: %s", b, bad), nil)
-			return true
-		}
-		for k, li := range ids {
-			if _, dup := expected[b][[2]int{li.gi, li.seq}]; dup {
-				fail("duplicate", fmt.Sprintf("branch %d: with a single goroutine entry <%d.%d> reached the sink twice", b, li.gi, li.seq), nil)
+		for rsi := range ref.streams[b] {
+			se := streamExp{map[[2]int][]byte{}, map[[2]int]int{}}
+			refStream := ref.streams[b][rsi]()
+			if k := bytes.IndexByte(refStream, 0xDB); k >= 0 {
+				lo := k - 80
+				if lo < 0 {
+					lo = 0
+				}
+				fail("poison", fmt.Sprintf("branch %d: freed-buffer poison (0xDB) reached the sink even with a single goroutine: a pooled buffer was read after it was returned to the pool: %q", b, clip(refStream[lo:])), nil)
 				return true
 			}
-			expected[b][[2]int{li.gi, li.seq}] = lines[k]
+			ids, lines, bad := parseStream(refStream)
+			if bad != "" {
+				// one goroutine is the smallest instance of "any number of goroutines"
+				fail("sequential-corrupt", fmt.Sprintf("branch %d: with a single goroutine the sink stream is already not one intact line per entry: %s", b, bad), nil)
+				return true
+			}
+			mult := 1
+			if s.Branches[b].Sink == "shared-pair" && rsi == 0 {
+				mult = 2
+			}
+			for k, li := range ids {
+				key := [2]int{li.gi, li.seq}
+				if prev, dup := se.line[key]; dup && (se.count[key] >= mult || !bytes.Equal(prev, lines[k])) {
+					fail("duplicate", fmt.Sprintf("branch %d: with a single goroutine entry <%d.%d> reached the sink %d times", b, li.gi, li.seq, se.count[key]+1), nil)
+					return true
+				}
+				se.line[key] = lines[k]
+				se.count[key]++
+			}
+			expected[b] = append(expected[b], se)
 		}
 	}
 	// concurrent execution
@@ -496,6 +523,18 @@ func runOne(r *ev.Run, i int) bool {
 			time.Sleep(150 * time.Microsecond)
 		}
 	}()
+	if s.StopMid > 0 && len(e.bws) > 0 {
+		// Stop while loggers are still active: later entries stay buffered until the final Sync, and
+		// nothing may overtake what is already buffered
+		go func() {
+			<-startCh
+			time.Sleep(time.Duration(s.StopMid) * time.Microsecond)
+			for _, b := range e.bws {
+				_ = b.Stop()
+			}
+		}()
+		r.Count("runs_with_stop_during_logging", 1)
+	}
 	finished := make(chan struct{})
 	go func() { wg.Wait(); close(finished) }()
 	close(startCh)
@@ -565,9 +604,13 @@ func runOne(r *ev.Run, i int) bool {
 			seen := map[[2]int]int{}
 			lastSeq := map[int]int{}
 			switches := 0
+			se := expected[b][0]
+			if si < len(expected[b]) {
+				se = expected[b][si]
+			}
 			for k, li := range ids {
 				key := [2]int{li.gi, li.seq}
-				exp, ok := expected[b][key]
+				exp, ok := se.line[key]
 				if !ok {
 					fail("unexpected-line", fmt.Sprintf("%s: a line for entry <%d.%d> reached the sink although that call is not accepted by this branch (or the id is corrupt): %q", where, li.gi, li.seq, clip(lines[k])), nil)
 					return true
@@ -583,11 +626,11 @@ func runOne(r *ev.Run, i int) bool {
 					return true
 				}
 				seen[key]++
-				if seen[key] > 1 {
-					fail("duplicate", fmt.Sprintf("%s: entry <%d.%d> appears %d times", where, li.gi, li.seq, seen[key]), nil)
+				if seen[key] > se.count[key] {
+					fail("duplicate", fmt.Sprintf("%s: entry <%d.%d> appears %d times (want %d)", where, li.gi, li.seq, seen[key], se.count[key]), nil)
 					return true
 				}
-				if last, ok := lastSeq[li.gi]; ok && li.seq <= last {
+				if last, ok := lastSeq[li.gi]; ok && (li.seq < last || (li.seq == last && se.count[key] == 1)) {
 					fail("order", fmt.Sprintf("%s: entries of goroutine %d are out of order: <%d.%d> after <%d.%d>", where, li.gi, li.gi, li.seq, li.gi, last), nil)
 					return true
 				}
@@ -596,9 +639,9 @@ func runOne(r *ev.Run, i int) bool {
 					switches++
 				}
 			}
-			for key := range expected[b] {
-				if seen[key] == 0 {
-					fail("lost", fmt.Sprintf("%s: accepted entry <%d.%d> never reached the sink (Sync and Stop completed)", where, key[0], key[1]), nil)
+			for key, want := range se.count {
+				if seen[key] < want {
+					fail("lost", fmt.Sprintf("%s: accepted entry <%d.%d> reached the sink %d times, want %d (Sync and Stop completed)", where, key[0], key[1], seen[key], want), nil)
 					return true
 				}
 			}
@@ -623,7 +666,7 @@ func runOne(r *ev.Run, i int) bool {
 				oh = (oh ^ uint64(li.gi*100003+li.seq)) * 1099511628211
 			}
 			r.SetAdd("distinct_sink_orders", strconv.FormatUint(oh, 36))
-			if len(ids) > 0 && len(ids) <= 400 && si == 0 {
+			if len(ids) > 0 && len(ids) <= 400 && si == 0 && bs.Sink != "shared-pair" {
 				porcupineCheck(r, id, where, ids, stamps, fail)
 			}
 		}
